@@ -8,7 +8,7 @@
 
 /*@unit
 name: find_file
-define: VERIF_CONF_ANNOT, VERIF_OWN_STRCMP, VERIF_OWN_STRCHR, VERIF_OWN_STRLEN, VERIF_STRLEN_FORALL
+define: VERIF_CONF_ANNOT_FIND, VERIF_OWN_STRCMP, VERIF_OWN_STRCHR, VERIF_OWN_STRLEN, VERIF_STRLEN_FORALL
 src: conf.c
 enforce: spifconf_find_file
 backend: z3
